@@ -115,6 +115,9 @@ func (o Op) String() string {
 	case OpHijack:
 		return "Hijack"
 	case OpBlob:
+		if o.S2 == "stream" {
+			return fmt.Sprintf("Stream(%d,%q)", o.N, o.S)
+		}
 		return fmt.Sprintf("Blob(%d,%q)", o.N, o.S)
 	}
 	return "?"
@@ -184,8 +187,9 @@ type Ctx interface {
 	Req() *http.Request
 	SetStatus(code int)
 	SetHeader(k, v string)
-	WriteString(s string)         // Context.WriteString: panics with the write error, like rux
-	Blob(status int, data string) // Context.Blob: status, content type, then the data if there is any
+	WriteString(s string)           // Context.WriteString: panics with the write error, like rux
+	Blob(status int, data string)   // Context.Blob: status, content type, then the data if there is any
+	Stream(status int, data string) // Context.Stream: status, content type, then the reader's bytes (errors are recorded)
 	Length() int
 	Set(k string, v any)
 	Data() map[string]any
@@ -361,6 +365,13 @@ func Run(s *Script, c Ctx, tr *Trace) {
 				tr.Add("  %s hijacks err=%v", s.Name, err != nil)
 			}
 		case OpBlob:
+			if o.S2 == "stream" {
+				c.Stream(o.N, o.S)
+				if o.S != "" {
+					tr.Add("  %s Stream(%d, %d bytes) length=%d errors=%d", s.Name, o.N, len(o.S), c.Length(), c.NumErrors())
+				}
+				break
+			}
 			c.Blob(o.N, o.S)
 			tr.Add("  %s Blob(%d, %d bytes)", s.Name, o.N, len(o.S))
 		case OpForward:
@@ -442,12 +453,15 @@ func (r *RCtx) SetStatus(code int)                      { r.C.SetStatus(code) }
 func (r *RCtx) SetHeader(k, v string)                   { r.C.SetHeader(k, v) }
 func (r *RCtx) WriteString(s string)                    { r.C.WriteString(s) }
 func (r *RCtx) Blob(status int, data string)            { r.C.Blob(status, "text/x-blob", []byte(data)) }
-func (r *RCtx) Length() int                             { return r.C.Length() }
-func (r *RCtx) Set(k string, v any)                     { r.C.Set(k, v) }
-func (r *RCtx) Data() map[string]any                    { return r.C.Data() }
-func (r *RCtx) AddError(err error)                      { r.C.AddError(err) }
-func (r *RCtx) NumErrors() int                          { return len(r.C.Errors) }
-func (r *RCtx) Params() map[string]string               { return r.C.Params }
+func (r *RCtx) Stream(status int, data string) {
+	r.C.Stream(status, "text/x-blob", io.LimitReader(strings.NewReader(data), int64(len(data))))
+}
+func (r *RCtx) Length() int               { return r.C.Length() }
+func (r *RCtx) Set(k string, v any)       { r.C.Set(k, v) }
+func (r *RCtx) Data() map[string]any      { return r.C.Data() }
+func (r *RCtx) AddError(err error)        { r.C.AddError(err) }
+func (r *RCtx) NumErrors() int            { return len(r.C.Errors) }
+func (r *RCtx) Params() map[string]string { return r.C.Params }
 func (r *RCtx) SetParam(k, v string) {
 	if r.C.Params == nil {
 		r.C.Params = rux.Params{}
@@ -526,6 +540,13 @@ func (m *MCtx) Blob(status int, data string) {
 	m.resp.Header().Set("Content-Type", "text/x-blob")
 	if len(data) > 0 {
 		m.WriteString(data)
+	}
+}
+func (m *MCtx) Stream(status int, data string) {
+	m.resp.WriteHeader(status)
+	m.resp.Header().Set("Content-Type", "text/x-blob")
+	if _, err := io.Copy(m.resp, io.LimitReader(strings.NewReader(data), int64(len(data)))); err != nil {
+		m.AddError(err)
 	}
 }
 func (m *MCtx) WriteString(s string) {
